@@ -16,7 +16,13 @@ PARTIAL = ("Theorems are over exact real arithmetic extended by +Inf/-Inf/NaN (c
            "limits of the cdf), not for the Gamma/Beta-normalised ones. Vector families (t, normal, ScalarIid, ScalarId) "
            "are modelled with the inverse and determinant of Sigma entering as logged data (SigmaInv / SigmaDet fields; "
            "matrixInverse / determinant are other properties' business); skew-normal, the matrix families and the "
-           "mixture wrapper are not modelled. Derivative slots are checked only by the hunt (central differences).")
+           "mixture wrapper are not modelled. Derivative slots are checked only by the hunt (central differences). "
+           "Cache coherence over mutator histories (SModel.v) is proved for the 18 scalar families; the state model is "
+           "functional (one object): storage shared between an object and its clone / its caller's vectors is outside "
+           "it and covered by the hunt only (copies set aside at a Clone, scribbling on argument / returned vectors); "
+           "for the vector and matrix families (normal, t, skew normal, inverse Wishart, normal-inverse-Wishart) mutator "
+           "histories are decided by the hunt only (fresh-twin comparison bit for bit), not by a Coq state model; "
+           "ImportConfig of the wrappers / mixtures / HMMs is not a transition of the model.")
 
 
 def proposed_findings():
